@@ -381,6 +381,34 @@ func TestVerifC11(t *testing.T) {
 			gs.release()
 			r.Eval("kernel|expandKeyAsm|" + placeName(place))
 		}
+		// expandKeyAsm again with enc and dec as two SEPARATE objects of 128 bytes (the routine takes two pointers; that the
+		// library's only caller passes neighbours is not part of its contract): a store reaching past either array faults
+		for _, place := range []int{hk.PlaceEnd, hk.PlaceStart} {
+			k := gs.get("key", key, place)
+			encB := gs.get("enc-array", make([]byte, 128), place)
+			decB := gs.get("dec-array", make([]byte, 128), place)
+			r.Journal("expandKeyAsm separate arrays place=%s", placeName(place))
+			p, msg, isFault, addr := hk.Try(func() {
+				expandKeyAsm(&k[0], (*uint32)(unsafe.Pointer(&encB[0])), (*uint32)(unsafe.Pointer(&decB[0])))
+			})
+			if p && isFault {
+				faults++
+				r.Violation("kernel-out-of-range-access:expandKeyAsm(separate-arrays):"+gs.where(addr), hk.D{"placement": placeName(place), "panic": msg})
+			} else if p {
+				r.Violation("kernel-panics:expandKeyAsm(separate-arrays)", hk.D{"panic": msg})
+			} else {
+				encs := (*[32]uint32)(unsafe.Pointer(&encB[0]))
+				decs := (*[32]uint32)(unsafe.Pointer(&decB[0]))
+				for i := 0; i < 32; i++ {
+					if encs[i] != refRK[i] || decs[i] != refRK[31-i] {
+						r.Violation("kernel-wrong-under-guard:expandKeyAsm(separate-arrays)", hk.D{"round": i})
+						break
+					}
+				}
+			}
+			gs.release()
+			r.Eval("kernel|expandKeyAsm-separate-arrays|" + placeName(place))
+		}
 		// gHashBlocks: H, tag (in/out), data of count blocks
 		for count := 1; count <= hk.N(40, 80); count++ {
 			for _, place := range []int{hk.PlaceEnd, hk.PlaceStart} {
